@@ -7,7 +7,7 @@
    frame without outcome, ACKED only if it was delivered; pop / sync of the event queue).
    [n_dbytes] / [n_ends]: concatenation of the bytes / number of end markers reported to the application. *)
 From AQ Require Import lib.Base model.RangeSet model.StreamRecv model.StreamSpec model.StreamSend model.NetSys
-  proofs.StreamSendP proofs.NetSysP proofs.NetSysP2.
+  proofs.StreamSendP proofs.NetSysP proofs.NetSysP2 proofs.NetSysP3.
 
 (* the bytes reported are a prefix of the bytes written, in every reachable state; the end marker is
    reported at most once and only when a FIN was written and all written bytes have been reported *)
@@ -42,3 +42,10 @@ Theorem every_schedule_reachable_thm : forall ops s s',
   nreach s -> Forall data_op ops -> run_sched s ops = Some s' -> nreach s'.
 Proof. exact run_sched_reach. Qed.
 Print Assumptions every_schedule_reachable_thm.
+
+(* the sender reports is_finished only after the receiver has reported every written byte and the end
+   marker (rests on the guard of NOutcome: ACKED only for a frame that was delivered) *)
+Theorem finished_implies_delivered_thm : forall s, nreach s -> s_finished (n_send s) = true ->
+  n_dbytes s = n_written s /\ n_ends s = 1 /\ eof s.
+Proof. exact finished_implies_delivered. Qed.
+Print Assumptions finished_implies_delivered_thm.
